@@ -50,9 +50,10 @@ def shards(tier):
         out.append({"name": "rel-%s" % shape_str(sh), "shape": list(sh)})
     # history shards: all queries are asked once (warming any cache), one
     # mutation is applied, then all queries must agree with the new structure
-    hn = 3 if tier == "quick" else 4
+    # (4-node history shards took > 90 min in the thorough tier: bounded at 3,
+    # plus the 4-node shapes for the cheapest state-changing operation)
     for op in HIST_OPS:
-        for sh in shapes_upto(hn, 2):
+        for sh in shapes_upto(3, 2) + (shapes_upto(4, 4) if (tier != "quick" and op == "remove") else []):
             out.append({"name": "hist-%s-%s" % (op, shape_str(sh)), "kind": "hist", "op": op, "shape": list(sh), "regime": "R1", "cost": 20})
     return out
 
